@@ -20,7 +20,8 @@ TRUSTED = ['CPython ast', 'C02, C03, C04 (rotation, transform, embed, compose se
 def indep_truth(expr, other):
     """Evaluate a gate-independence predicate on concrete qubit tuples; True iff it equals set-disjointness."""
     from ..exprnf import ev, Undecidable
-    cases = [((0,), (0,)), ((0,), (1,)), ((0, 1), (1, 2)), ((0, 1), (2, 3)), ((2,), (0, 1, 2)), ((3, 4), (0, 1)), ((0, 2), (1, 3))]
+    cases = [((0,), (0,)), ((0,), (1,)), ((0, 1), (1, 2)), ((0, 1), (2, 3)), ((2,), (0, 1, 2)), ((3, 4), (0, 1)), ((0, 2), (1, 3)),
+             ((1, 0), (1,)), ((1, 0), (2,)), ((3, 1), (2,)), ((0, 3), (1, 2)), ((2, 0), (0, 2)), ((5,), (4, 6)), ((4, 2, 0), (3, 1))]
     try:
         for a, b in cases:
             def attr(n, env, rec, a=a, b=b):
@@ -39,11 +40,43 @@ def indep_truth(expr, other):
                 if isinstance(n.func, ast.Attribute) and n.func.attr in ('isdisjoint', 'intersection'):
                     return getattr(set(rec(n.func.value)), n.func.attr)(*[set(rec(x)) for x in n.args])
                 raise Undecidable('call')
-            if bool(ev(expr, {}, attr=attr, call=call)) != (not (set(a) & set(b))):
+            from ..rules.tables import std_sub
+            if bool(ev(expr, {}, attr=attr, call=call, sub=std_sub)) != (not (set(a) & set(b))):
                 return False
         return True
     except Undecidable:
         return None
+
+
+def independence(run, repo, pkg):
+    """gates are independent iff their qubit sets are disjoint; a layer is independent iff all of its gates are.
+    (Gates of one layer are applied, replayed backwards and embedded without regard to order, which is only valid
+    for disjoint supports.)"""
+    gate = repo.cls(pkg, 'CliffordGate')
+    layer = repo.cls(pkg, 'CliffordLayer')
+    gi = gate.methods['independent_from']
+    rets = [st.value for st, _ in walk(gi.node) if isinstance(st, ast.Return)]
+    other = gi.posparams[1]
+    verdict = indep_truth(rets[0], other) if len(rets) == 1 else None
+    if verdict is None:
+        run.undecided('R11.indep', gi, 'independent_from', 'return expression not evaluable on concrete qubit tuples')
+    else:
+        run.check(verdict, 'R11.indep', gi, rets[0], 'two gates are independent iff their qubit sets are disjoint')
+    li = layer.methods['independent_from']
+    rets = [st.value for st, _ in walk(li.node) if isinstance(st, ast.Return)]
+    o2 = li.posparams[1]
+    ok = None
+    if len(rets) == 1 and isinstance(rets[0], ast.Call) and norm(rets[0].func) == 'all' and rets[0].args \
+            and isinstance(rets[0].args[0], (ast.GeneratorExp, ast.ListComp)):
+        ge = rets[0].args[0]
+        gv = ge.generators[0]
+        ok = norm(gv.iter) == 'self.gates' and not gv.ifs and isinstance(ge.elt, ast.Call) \
+            and isinstance(ge.elt.func, ast.Attribute) and ge.elt.func.attr == 'independent_from' \
+            and norm(ge.elt.func.value) == norm(gv.target) and [norm(a) for a in ge.elt.args] == [o2]
+    if ok is None:
+        run.undecided('R11.indep', li, 'independent_from', 'not of the form all(gate.independent_from(x) for gate in self.gates)')
+    else:
+        run.check(ok, 'R11.indep', li, rets[0], 'a layer is independent from a gate iff all of its gates are')
 
 
 def check(run):
@@ -59,30 +92,12 @@ def check(run):
         circ.gate_compile(run, gate.methods['compile'])
         CR.check_take(run, repo, layer.methods['take'], has_measure)
         CR.check_placement(run, layer.methods['take'])
+        for cn in ('CliffordGate', 'CliffordLayer', 'MeasureLayer', 'CliffordCircuit', 'Circuit'):
+            kc = repo.find_cls(pkg, cn)
+            if kc is not None:
+                CR.check_cache_coherence(run, repo, kc)
         # independent_from: gate = disjoint qubit sets; layer = all gates independent
-        gi = gate.methods['independent_from']
-        rets = [st.value for st, _ in walk(gi.node) if isinstance(st, ast.Return)]
-        other = gi.posparams[1]
-        verdict = indep_truth(rets[0], other) if len(rets) == 1 else None
-        if verdict is None:
-            run.undecided('R11.indep', gi, 'independent_from', 'return expression not evaluable on concrete qubit tuples')
-        else:
-            run.check(verdict, 'R11.indep', gi, rets[0], 'two gates are independent iff their qubit sets are disjoint')
-        li = layer.methods['independent_from']
-        rets = [st.value for st, _ in walk(li.node) if isinstance(st, ast.Return)]
-        o2 = li.posparams[1]
-        ok = None
-        if len(rets) == 1 and isinstance(rets[0], ast.Call) and norm(rets[0].func) == 'all' and rets[0].args \
-                and isinstance(rets[0].args[0], (ast.GeneratorExp, ast.ListComp)):
-            ge = rets[0].args[0]
-            gv = ge.generators[0]
-            ok = norm(gv.iter) == 'self.gates' and not gv.ifs and isinstance(ge.elt, ast.Call) \
-                and isinstance(ge.elt.func, ast.Attribute) and ge.elt.func.attr == 'independent_from' \
-                and norm(ge.elt.func.value) == norm(gv.target) and [norm(a) for a in ge.elt.args] == [o2]
-        if ok is None:
-            run.undecided('R11.indep', li, 'independent_from', 'not of the form all(gate.independent_from(x) for gate in self.gates)')
-        else:
-            run.check(ok, 'R11.indep', li, rets[0], 'a layer is independent from a gate iff all of its gates are')
+        independence(run, repo, pkg)
         for cname in ('CliffordCircuit', 'Circuit'):
             c = repo.find_cls(pkg, cname)
             if c is None:
@@ -127,6 +142,7 @@ def check(run):
                     if m in c.methods:
                         entries.append(c.methods[m])
     resolve.check_cone(run, repo, entries, 'circuit forward')
+    run.floor('R11.indep', 4)
     run.floor('R10.gen', 12)
     run.floor('R10.order', 8)
     run.floor('R10.fold', 3)
